@@ -5,6 +5,7 @@ import (
 	"go/types"
 	"strings"
 
+	"golang.org/x/tools/go/packages"
 	"golang.org/x/tools/go/ssa"
 )
 
@@ -310,4 +311,31 @@ func memoUpdatedParams(f *ssa.Function, T *types.Named, memo string, depth int, 
 		}
 	})
 	return out
+}
+
+// stopFlagField: the name of the bool field of T that T's Shutdown method sets to true (the queue's stop flag),
+// "stopped" – its name on the reference tree – if Shutdown does no such thing.
+func stopFlagField(p *Prog, pk *packages.Package, T *types.Named) string {
+	name := "stopped"
+	if T == nil {
+		return name
+	}
+	for _, fn := range p.AllSrcFuncs(pk) {
+		if rootFn(fn).Name() != "Shutdown" || recvNamedOfFn(rootFn(fn)) != T {
+			continue
+		}
+		allInstrs(fn, func(in ssa.Instruction) {
+			st, ok := in.(*ssa.Store)
+			if !ok {
+				return
+			}
+			if b, ok := constBool(st.Val); !ok || !b {
+				return
+			}
+			if fa, ok := st.Addr.(*ssa.FieldAddr); ok && namedOf(fa.X.Type()) == T {
+				name = derefStruct(fa.X.Type()).Field(fa.Field).Name()
+			}
+		})
+	}
+	return name
 }
